@@ -867,7 +867,7 @@ impl World {
 fn write_mode(v: &Value) -> WriteMode {
     if v == "manual" {
         WriteMode::Manual
-    } else if let Some(n) = v.as_u64() {
+    } else if let Some(n) = v.as_u64().or_else(|| v.as_str().and_then(|s| s.parse::<u64>().ok())) {
         WriteMode::PerPoll(n as usize)
     } else {
         WriteMode::All
